@@ -430,7 +430,7 @@ fn main() {
         "determinism" => determinism::mode(&args),
         "replaydef" => replaydef::mode(&args),
         "resolver" => resolver::mode(&args),
-        "typenames" => typenames::mode(&args),
+        "emit-probes" => typenames::mode(&args),
         "emit" => emit::mode(&args),
         "replay" => mode_replay(&args),
         "count-distinct" => {
